@@ -32,6 +32,23 @@ static void
 c05_env(T0N_CTXT *c)
 {
 	C05_IN_REGION(c->hbuf, c->hlen);
+	/* stated call-site preconditions: the element lengths handed to set-*-key were
+	   read (read-integer / read-blob) under the key_data length limit of the bytecode */
+#if defined(C05_KEY_pkey)
+	if (OP == C05_OP_set_rsa_key) {
+		ASSUME(t0n_dpi >= 2);
+		ASSUME(C05_TOP(1) <= C05_REGION_LEN_key_data && C05_TOP(0) <= C05_REGION_LEN_key_data - C05_TOP(1));
+	}
+#else
+	if (OP == C05_OP_set_rsa_key) {
+		uint32_t k, sum = 0;
+		ASSUME(t0n_dpi >= 6);
+		for (k = 0; k < 5; k ++) {
+			ASSUME(C05_TOP(k) <= C05_REGION_LEN_key_data - sum);
+			sum += C05_TOP(k);
+		}
+	}
+#endif
 }
 static void
 c05_post(T0N_CTXT *c, unsigned op)
